@@ -455,19 +455,25 @@ Theorem ray_refuted :
   = Ok ([VRay (mkV3 0 0 0) (mkV3 f32_4 f32_5 f32_4)], []).
 Proof. vm_compute. reflexivity. Qed.
 
+(* encode one column, then decode it *)
+Definition enc_then_dec (ty : wire_type) (cty : N) (ec : enc_ctx) (dc : dec_ctx) (vs : list value) : res (list value * bytes) :=
+  match enc_col ty ec vs with
+  | Ok b => dec_col ty cty dc (length vs) b
+  | Err e => Err e | Panic => Panic | OutOfFuel => OutOfFuel
+  end.
+
 (* and with the repaired arm it comes back intact *)
 Theorem ray_repaired :
-  exists b, enc_col WRay ectx0 [VRay (mkV3 0 0 0) (mkV3 f32_4 f32_5 f32_6)] = Ok b /\
-            dec_col WRay VT_Ray ctx0 1 b = Ok ([VRay (mkV3 0 0 0) (mkV3 f32_4 f32_5 f32_6)], []).
-Proof. eexists. split; vm_compute; reflexivity. Qed.
+  enc_then_dec WRay VT_Ray ectx0 ctx0 [VRay (mkV3 0 0 0) (mkV3 f32_4 f32_5 f32_6)]
+  = Ok ([VRay (mkV3 0 0 0) (mkV3 f32_4 f32_5 f32_6)], []).
+Proof. vm_compute. reflexivity. Qed.
 
 (* a Color3uint8 value of a property the database does not know is written with wire type Color3uint8,
    and the reader rejects that column (its arm accepts only properties declared Color3): the file
    written for such a DOM cannot be read back *)
 Theorem color3uint8_unknown_property_refuted :
-  exists b, enc_col WColor3uint8 ectx0 [VColor3uint8 1 2 3] = Ok b /\
-            dec_col WColor3uint8 (to_default_rbx_type WColor3uint8) ctx0 1 b = Err E_TYPE_MISMATCH.
-Proof. eexists. split; vm_compute; reflexivity. Qed.
+  enc_then_dec WColor3uint8 (to_default_rbx_type WColor3uint8) ectx0 ctx0 [VColor3uint8 1 2 3] = Err E_TYPE_MISMATCH.
+Proof. vm_compute. reflexivity. Qed.
 
 Definition ectx_id : enc_ctx := mkEC (fun r => Some (Z.of_N r)) (fun _ => None) (fun _ => 0).
 Definition dctx_id : dec_ctx := mkDC (fun z => Z.to_N z) [] None.
@@ -475,18 +481,17 @@ Definition dctx_id : dec_ctx := mkDC (fun z => Z.to_N z) [] None.
 (* two Content::Object values in one column come back in the opposite order (the reader pops its
    deque of object referents from the back) *)
 Theorem content_object_order_refuted :
-  exists b, enc_col WContent ectx_id [VContent (CObject 7); VContent (CObject 9)] = Ok b /\
-            dec_col WContent VT_Content dctx_id 2 b = Ok ([VContent (CObject 9); VContent (CObject 7)], []).
-Proof. eexists. split; vm_compute; reflexivity. Qed.
+  enc_then_dec WContent VT_Content ectx_id dctx_id [VContent (CObject 7); VContent (CObject 9)]
+  = Ok ([VContent (CObject 9); VContent (CObject 7)], []).
+Proof. vm_compute. reflexivity. Qed.
 
 (* Font: cached_face_id = Some "" is written as the empty string and read back as None *)
 Theorem font_cached_empty_refuted :
-  exists b, enc_col WFont ectx0 [VFont (mkFont [97] 400 0 (Some []))] = Ok b /\
-            dec_col WFont VT_Font ctx0 1 b = Ok ([VFont (mkFont [97] 400 0 None)], []).
-Proof. eexists. split; vm_compute; reflexivity. Qed.
+  enc_then_dec WFont VT_Font ectx0 ctx0 [VFont (mkFont [97] 400 0 (Some []))]
+  = Ok ([VFont (mkFont [97] 400 0 None)], []).
+Proof. vm_compute. reflexivity. Qed.
 
 (* Tags: an empty member and a member containing NUL do not survive the NUL-separated blob *)
 Theorem tags_refuted :
-  exists b, enc_col WString ectx0 [VTags [[97]; []; [98; 0; 99]]] = Ok b /\
-            dec_col WString VT_Tags ctx0 1 b = Ok ([VTags [[97]; [98]; [99]]], []).
-Proof. eexists. split; vm_compute; reflexivity. Qed.
+  enc_then_dec WString VT_Tags ectx0 ctx0 [VTags [[97]; []; [98; 0; 99]]] = Ok ([VTags [[97]; [98]; [99]]], []).
+Proof. vm_compute. reflexivity. Qed.
